@@ -94,6 +94,18 @@ CLAIMS = {
         "equality as numbers (the numerical core of _varimax/_promax is not analysed).",
         "technique": "def-use provenance (pairing through a helper call), typestate of a flag over CFG dominators, loop-condition exhaustiveness, sibling agreement",
     },
+    "C12": {
+        "text": "Interprocedural may-taint analysis from the data arguments of fit over the resolved call graph of all 27 models whose constructor "
+        "takes compute (dispatch on the concrete class; apply_ufunc kernels followed according to their dask mode; accumulator lists, result "
+        "containers and attributes of helper objects carry taint; metadata accessors cleanse): every certainly-materialising operation "
+        "(.values, .item(), compute/load, float/int/bool, truth value of an array, np.asarray, equals/identical, dropna, where(drop=True), "
+        "np.linalg.eig, assignment into numpy buffers) on lazy data must be control-dependent on a compute/check_nans flag somewhere on the call "
+        "path or lie after an 'if use_dask: raise'; input data entries are stored with allow_compute=False and both compute() methods filter on it.",
+        "note": "Necessary structural clauses only. Not decided: equality with the in-memory fit, scheduler independence, what dask's own routines "
+        "do. multi.CCA scoped out (refuses dask input). Known findings: OPA (.dropna) and POP (eig, buffer loop) - see known_findings.json. "
+        "Trusted: frozen table of materialising operations and of metadata accessors.",
+        "technique": "interprocedural taint analysis with guard (control-dependence) protection over the resolved call graph",
+    },
     "C13": {
         "text": "For all 29+ serialisable model classes the key set of _params after the __init__ chain (abstractly interpreted: dict "
         "literal, update, item assignment, pop) is closed under cls(**params); sklearn-style transformers store every constructor "
@@ -103,6 +115,17 @@ CLAIMS = {
         "note": "Necessary structural clauses only. Not decided: value identity of results after a round trip; the real netCDF/zarr "
         "engines. Known finding: GWPCA constructor closure (see known_findings.json).",
         "technique": "key-set abstract interpretation of constructor chains, writer/reader literal agreement, guard (try/except, emptiness) analysis",
+    },
+    "C14": {
+        "text": "Persistent vs per-fit objects are derived from constructor call sites. On the fit path of every persistent class no list/dict "
+        "attribute grows without a dominating fresh reset; a must-assigned / may-read analysis (with correlated hyper-parameter flags) over fit and "
+        "compute of every concrete model and persistent transformer shows no attribute that fit rewrites being read before it is rebuilt; "
+        "transform-written attributes are not read by fitted-data accessors; arrays read from another model's container or the caller's inputs never "
+        "reach DataContainer.add or an in-place assignment without an intervening fresh object; borrowed stage objects are never re-fitted; mutable "
+        "defaults are never mutated.",
+        "note": "Necessary structural clauses only. Not decided: bit-identical equality with a fresh model. Trusted: which operations return fresh "
+        "objects (any xarray/numpy method call or arithmetic), DataContainer.add/set_attrs mutate what they are given.",
+        "technique": "typestate/history analysis: must-def / exposed-read dataflow across calls, ownership (borrowed vs fresh) provenance, dominators",
     },
     "C15": {
         "text": "Every ** splat of a value flowing from solver_kwargs is checked not to target an xeofs callable; in both SVD wrappers "
